@@ -2,11 +2,11 @@ SPECIFICATION Spec
 CONSTANTS
   Fams <- MutantFams
   D_SwapDelete = TRUE
-  M_NamesComparedWhole = TRUE
+  M_NamesComparedWhole = FALSE
   NameW = 5
   M_BuffersPerInstance = TRUE
+  M_AllDocumentKindsFiltered = TRUE
   Cap = 2
   M_DepthBuffersDisjoint = TRUE
-  M_AllDocumentKindsFiltered = FALSE
-INVARIANTS MutantKindInv
+INVARIANTS MutantInv
 CHECK_DEADLOCK FALSE
